@@ -312,6 +312,12 @@ class UInterp(mirsym.Interp):
                 return cont(st, Enum('Option', 'Some', [Opaque(f'item{k}')]))
             st.trace.append('next yields None')
             return cont(st, Enum('Option', 'None', []))
+        if meth == 'call_once' and isinstance(args[0], Opaque) and args[0].what.startswith('closure:{closure@'):
+            # a closure defined inside the crate (e.g. `|a| a.clone()` in OffsetArc::clone_arc): run its own MIR
+            cl = s.find(None, closure=args[0].what.split('closure:', 1)[1])
+            if len(cl) != 1:
+                raise Unsupported(f'closure body not found for {args[0].what}')
+            return s.call_fn(st, cl[0], [args[0]] + list(args[1].fields), 0, cont, unw)
         if meth == 'call_once':
             # callback given to with_arc / with_arc_mut / with_raw_offset_arc
             tup = args[1]
@@ -342,7 +348,8 @@ class UInterp(mirsym.Interp):
         x = s.alloc_of(arc.fields[0])
         if eff == 'none':
             return finish(st)
-        clone_fn = [f for f in s.fns if f.name.split('::')[-1] == 'clone' and f.params and f.params[0][1].startswith('&arc::Arc<')][0]
+        want = '&offset_arc::OffsetArc<' if 'OffsetArc' in (arc.ty or '') else '&arc::Arc<'
+        clone_fn = [f for f in s.fns if f.name.split('::')[-1] == 'clone' and f.params and f.params[0][1].startswith(want)][0]
         if eff == 'clone_kept':
             def after(st3, rv):
                 st3.ext[x] = st3.ext.get(x, 0) + 1
@@ -680,6 +687,7 @@ APIS = [
     ('ArcBorrow::with_arc', 'with_arc', "&arc_borrow::ArcBorrow<'_, T>", 'arc_borrow::ArcBorrow<T>', False, ['closure']),
     ('ThinArc::with_arc', 'with_arc', '&ThinArc<H, T>', 'thin_arc::ThinArc<H, T>', False, ['closure']),
     ('ThinArc::with_arc_mut', 'with_arc_mut', '&mut ThinArc<H, T>', 'thin_arc::ThinArc<H, T>', False, ['closure']),
+    ('Arc::with_raw_offset_arc', 'with_raw_offset_arc', '&arc::Arc<T>', 'arc::Arc<T>', False, ['closure']),
     ('Arc::into_thin', 'into_thin', 'arc::Arc<header::HeaderSlice<header::HeaderWithLength<H>, [T]>>', 'arc::Arc<header::HeaderSlice<header::HeaderWithLength<H>, [T]>>', True, []),
 ]
 
